@@ -540,6 +540,18 @@ def run(ctx):
         # fall back to an empty table: the dynamic stacks then contain builtin clauses only and the fault injection
         # below still searches for a failing input
         recs = []
+    # ---------------- T5: the current source of Context.call and of the entry points' except blocks, as terms of
+    # Lib/PyAsyExn, equals the model functions for every input
+    import exn_translate
+    try:
+        ok5, out5 = ctx.coq_obligation("Gen_exncall", exn_translate.emit_b(lib.SRC), n_obligations=3)
+        if ok5:
+            ctx.trusted.append("Gen_exncall (source = model equations): " + " ".join(out5.split()))
+    except exn_translate.Untranslatable as e:
+        ctx.obligations += 3
+        ctx.broken.append(f"translator gen/exn_translate.py: source left the translatable vocabulary: {e}")
+        table_broken = True
+    krt_context_call(ctx, jinja2)
     bad_rows = failing_rows(recs)
     ctx.extra["rows_failing_obligation"] = [f"{r['fn']}:{r['lineno']} except {h['text']} -> {h['kind']}" for r, h in bad_rows]
 
@@ -593,6 +605,75 @@ def run(ctx):
             ctx.validated()
     if ctx.mismatches:
         ctx.extra["mismatch_samples"] = [m[1] for m in ctx.mismatches[:8]]
+
+
+def krt_context_call(ctx, jinja2):
+    """K-rt for Context.call: the argument injection and the StopIteration conversion of the model function
+    B.ctx_call_m (Lib/PyAsyExn.v), observed on the real method for every marker / __call__ / kwargs combination"""
+    from jinja2.runtime import Context, Undefined
+    from jinja2.nodes import EvalContext
+    from jinja2.utils import pass_context, pass_environment, pass_eval_context
+    env = jinja2.Environment()
+    decos = {"none": lambda f: f, "context": pass_context, "eval_context": pass_eval_context, "environment": pass_environment}
+    want = {"none": None, "context": Context, "eval_context": EvalContext, "environment": jinja2.Environment}
+    for dname, deco in decos.items():
+        for via_call in (False, True):
+            for loopv in (None, {}, {"lv": 1}):
+                for blockv in (None, {"bv": 2}):
+                    for raises in (None, StopIteration, PStop, PrivE):
+                        seen = {}
+
+                        def body(*a, **k):
+                            seen["args"], seen["kw"] = a, k
+                            if raises is not None:
+                                seen["exc"] = raises("x")
+                                raise seen["exc"]
+                            return "R"
+
+                        if via_call:
+                            class Obj:
+                                __call__ = deco(lambda self, *a, **k: body(*a, **k))
+                            target = Obj()
+                        else:
+                            target = deco(lambda *a, **k: body(*a, **k))
+                        c = env.from_string("").new_context({"top": 0})
+                        kw = {"x": 1}
+                        if loopv is not None:
+                            kw["_loop_vars"] = loopv
+                        if blockv is not None:
+                            kw["_block_vars"] = blockv
+                        case = {"krt": "Context.call", "marker": dname, "via_call": via_call, "loop_vars": repr(loopv),
+                                "block_vars": repr(blockv), "raises": getattr(raises, "__name__", None)}
+                        ctx.case(key=("ctxcall", dname, via_call, repr(loopv), repr(blockv), case["raises"]))
+                        try:
+                            out = c.call(target, 7, **kw)
+                            res = "undefined" if isinstance(out, Undefined) else out
+                        except BaseException as e:  # noqa
+                            res = "same" if e is seen.get("exc") else "other:" + type(e).__name__
+                        problems = []
+                        exp = "R" if raises is None else ("undefined" if issubclass(raises, StopIteration) else "same")
+                        if res != exp:
+                            problems.append(f"result {res!r}, expected {exp!r}")
+                        args = list(seen.get("args", ()))
+                        if via_call and dname != "none" and args:
+                            pass      # bound method: self is not in *a
+                        lead = args[:-1]
+                        if want[dname] is None:
+                            if lead:
+                                problems.append("an engine object was injected for an unmarked callable")
+                        elif len(lead) != 1 or not isinstance(lead[0], want[dname]):
+                            problems.append(f"first argument is {type(lead[0]).__name__ if lead else None}, expected {want[dname].__name__}")
+                        elif dname == "context":
+                            for dct in (loopv, blockv):
+                                for key in (dct or {}):
+                                    if key not in lead[0].get_all():
+                                        problems.append(f"derived context lacks {key}")
+                        if args[-1:] != [7] or seen.get("kw") != {"x": 1}:
+                            problems.append(f"data arguments changed: {args[-1:]} {seen.get('kw')}")
+                        if problems:
+                            ctx.reject(case, "Context.call: " + "; ".join(problems), f"Context.call {dname} injection / conversion")
+                        else:
+                            ctx.validated()
 
 
 OBLIGATIONS = r'''
@@ -723,6 +804,9 @@ def replay(ctx, data):
     if data.get("kind") != "failing-input" or case is None:
         print("replay: names a broken theorem / obligation / correspondence:", data.get("broken"))
         return run(ctx)
+    if "krt" in case:
+        krt_context_call(ctx, jinja2)
+        return
     recs, _ = T2.scan_repo(lib.SRC)
     reader = StackReader(recs, os.path.join(lib.SRC, "jinja2"))
     cfg = [c for c in CONFIGS if c[0] == case["config"]][0]
